@@ -8,7 +8,9 @@ package main
 import (
 	"encoding/json"
 	"fmt"
+	"math"
 	"sort"
+	"strconv"
 	"strings"
 
 	"verifharness/internal/hx"
@@ -58,6 +60,74 @@ func (t *table) trail(text string, j *J) {
 		panic(fmt.Sprintf("harness bug: %q was generated as JSON with trailing bytes but is well-formed", text))
 	}
 	t.put(text, sexp.T("trail", j.sexp()))
+}
+
+// numTokens: the number tokens of a text the model will ask about (maximal runs of number
+// characters outside strings) with their float64 bits as strconv.ParseFloat gives them; "nr" for a
+// token outside the float64 range.  This is all the model is told about a JSON text: it parses the
+// raw bytes itself.
+func numTokens(text string, into map[string]sexp.Node, order *[]string) {
+	isNum := func(c byte) bool {
+		return (c >= '0' && c <= '9') || c == '-' || c == '+' || c == '.' || c == 'e' || c == 'E'
+	}
+	for i := 0; i < len(text); {
+		c := text[i]
+		switch {
+		case c == '"':
+			i++
+			for i < len(text) && text[i] != '"' {
+				if text[i] == '\\' {
+					i++
+				}
+				i++
+			}
+			i++
+		case isNum(c):
+			j := i
+			for j < len(text) && isNum(text[j]) {
+				j++
+			}
+			tok := text[i:j]
+			i = j
+			if _, ok := into[tok]; ok {
+				continue
+			}
+			f, err := strconv.ParseFloat(tok, 64)
+			if err != nil {
+				if ne, ok := err.(*strconv.NumError); !ok || ne.Err != strconv.ErrRange {
+					continue // not a number
+				}
+				into[tok] = sexp.L(sexp.Str(tok), sexp.Sym("nr"))
+			} else if math.IsInf(f, 0) {
+				into[tok] = sexp.L(sexp.Str(tok), sexp.Sym("nr"))
+			} else {
+				into[tok] = sexp.L(sexp.Str(tok), sexp.Uint64(math.Float64bits(f)))
+			}
+			*order = append(*order, tok)
+		default:
+			i++
+		}
+	}
+}
+
+func numsOf(subs []submission) []sexp.Node {
+	m := map[string]sexp.Node{}
+	var order []string
+	for _, s := range subs {
+		if s.HTTP != nil {
+			numTokens(s.HTTP.Body, m, &order)
+			for _, p := range s.HTTP.Params {
+				numTokens(p[1], m, &order)
+			}
+		} else if s.WS.Payload != nil {
+			numTokens(*s.WS.Payload, m, &order)
+		}
+	}
+	out := make([]sexp.Node, 0, len(order))
+	for _, k := range order {
+		out = append(out, m[k])
+	}
+	return out
 }
 
 func (t *table) sexp() sexp.Node {
@@ -589,6 +659,7 @@ func (w *world) run(cfg config, feat bool, o *opReq, t *table, subs []submission
 		sexp.T("op", sexp.Str(o.Query), optVars(o.Vars), sexp.Str(o.OpName), sexp.Bool(o.Sub)),
 		sexp.T("classes", cl...),
 		sexp.T("json", t.sexp()),
+		sexp.T("nums", numsOf(subs)...),
 		sexp.T("subs", items...))
 }
 
